@@ -171,7 +171,9 @@ def make_ob(magic, v, name, fields, flag, tier):
         assert d is None, "decode: " + str(d)
         assert rd.pos == len(items), "consumed: reader at %r of %d" % (rd.pos, len(items))
         import xdis.codetype as CT
-        assert type(co) is CT.portableCodeType(v), "portable class %s for %r" % (type(co).__name__, v)
+        # (not part of the statement, a consistency clause of mine; 1.4 is left out: portableCodeType((1, 4)) names Code15
+        # while 1.4 code objects have the 1.3 layout and the unmarshaller builds Code13 - the fields are what C01 is about)
+        assert v == (1, 4) or type(co) is CT.portableCodeType(v), "portable class %s for %r" % (type(co).__name__, v)
 
     def replay(**kw):
         data = bytes(realise(kw))
